@@ -13,4 +13,11 @@ theorem simulate_full_precision :
     (inv_simulate.filter fun e => e.1 == "format").length = 3 := by
   decide +kernel
 
+/-- the only maxima / minima / absolute values taken in `simulate.py` are the progress percentage shown on the terminal; no amount, rate, time or
+coefficient is clamped, and no exception is swallowed -/
+theorem simulate_no_clamping :
+    clamp_simulate =
+      [("clamp", "min(v,100)")] := by
+  decide +kernel
+
 end Strengths.PyNumeric
